@@ -3,11 +3,13 @@ C17 — Trigger definitions round-trip, match totally, are never hidden by the f
 
 Proved here: totality and bounded allocation of matching for every log; that matching reads exactly
 the documented slice on well-formed data; existence and soundness of the derived node-side filter;
-that decoding yields valid definitions only.  `C17_roundtrip_partial` is the typed half of the
-round-trip (definition ⇄ RLP item tree); the byte half (item tree ⇄ bytes, go-ethereum's RLP) is
-compared byte for byte with the implementation on every run instead of proved.
+that decoding yields valid definitions only; and the round trip through bytes (`C17_roundtrip`: typed
+definition → RLP item tree → bytes → item tree → definition, with go-ethereum's canonical-form checks),
+for every valid definition, from the RLP round trip for arbitrary item trees (`C17_rlp_roundtrip`).  The
+model's encoder and decoder are compared byte for byte with the implementation on every run.
 -/
 import Shutter.Proofs.TriggerDef
+import Shutter.Proofs.Rlp
 
 namespace Shutter.Properties.C17
 open Shutter.TriggerDef
@@ -235,6 +237,46 @@ theorem C17_match_spec_dynamic (r : ValueRef) (log : Log) (htop : r.isTopic = fa
     subst hl0
     simp [zeros]
 
+/-- **RLP round trip.**  Any item tree whose strings are shorter than 2^64 bytes, encoded and followed by
+    arbitrary bytes, decodes to the same tree and leaves exactly those bytes (with any fuel of at least
+    `need i`; twice the encoded length suffices). -/
+theorem C17_rlp_roundtrip (i : Item) (hs : i.small) (fuel : Nat) (hf : need i ≤ fuel) (rest : Bytes) :
+    decodeItem fuel (encodeItem i ++ rest) = some (i, rest) :=
+  decodeItem_encode i hs fuel hf rest
+
+/-- **Round trip.**  Every valid definition (20-byte contract address; item tree small, see
+    `C17_roundtrip_bounds`) is read back from its own encoding unchanged. -/
+theorem C17_roundtrip (d : Definition) (hv : d.valid = true) (hc : d.contract.length = 20)
+    (hs : d.toItem.small) : unmarshal (marshal d) = some d := by
+  unfold unmarshal marshal
+  simp only [ne_eq, not_true_eq_false, if_false]
+  rw [decode_encode _ hs]
+  simp only [definition_roundtrip d hv hc, hv, if_true]
+
+/-- the size hypothesis holds for byte arguments shorter than 2^64 bytes and 256-bit integer arguments -/
+theorem C17_roundtrip_bounds (d : Definition) (hv : d.valid = true) (hc : d.contract.length = 20)
+    (hb : ∀ p ∈ d.preds, ∀ b ∈ p.pred.byteArgs, b.length < 2 ^ 64)
+    (hi : ∀ p ∈ d.preds, ∀ a ∈ p.pred.intArgs, a < 2 ^ 256) : unmarshal (marshal d) = some d := by
+  apply C17_roundtrip d hv hc
+  apply definition_small d hv hc
+  · intro p hp b hb'
+    have := hb p hp b hb'
+    have h : (256 : Nat) ^ 8 = 2 ^ 64 := by decide
+    omega
+  · intro p hp a ha
+    have := hi p hp a ha
+    have h : (256 : Nat) ^ 32 = 2 ^ 256 := by decide
+    omega
+
+/-- **No two valid definitions share an encoding.** -/
+theorem C17_marshal_injective (d d' : Definition) (hv : d.valid = true) (hc : d.contract.length = 20)
+    (hs : d.toItem.small) (hv' : d'.valid = true) (hc' : d'.contract.length = 20) (hs' : d'.toItem.small)
+    (h : marshal d = marshal d') : d = d' := by
+  have h1 := C17_roundtrip d hv hc hs
+  have h2 := C17_roundtrip d' hv' hc' hs'
+  rw [h, h2] at h1
+  exact (Option.some.inj h1).symm
+
 /-! non-vacuity: a valid definition, a matching log, its filter (tests of the definitions) -/
 def exT : Bytes := List.replicate 31 0 ++ [7]
 def exDef : Definition :=
@@ -246,6 +288,9 @@ def exLog : Log := { address := List.replicate 20 1, topics := [exT, exT], data 
 example : exDef.valid = true ∧ matchDef exDef exLog = .ok true := by decide
 example : (toFilter exDef).map (fun f => passes f exLog) = some true := by decide
 example : unmarshal (marshal exDef) = some exDef := by decide
+example : exDef.valid = true ∧ exDef.contract.length = 20 ∧
+    (∀ p ∈ exDef.preds, ∀ b ∈ p.pred.byteArgs, b.length < 2 ^ 64) ∧
+    (∀ p ∈ exDef.preds, ∀ a ∈ p.pred.intArgs, a < 2 ^ 256) := by decide
 def exDyn : Definition :=
   { contract := List.replicate 20 1,
     preds := [ { ref := { dynamic := true, offset := 4 }, pred := { op := .uintEq, intArgs := [0], byteArgs := [] } } ] }
